@@ -168,7 +168,7 @@ func execute(t *testing.T, sc *Scenario, prefix []Choice, halt bool) *Result {
 			if c.EngineErr != "" {
 				res.EngineErr = c.EngineErr
 			}
-			if c.StepLimit && res.EngineErr == "" {
+			if c.StepLimit && res.EngineErr == "" && !c.StepLimitOutcome {
 				res.EngineErr = fmt.Sprintf("step limit %d reached; trace tail %v", c.MaxSteps, tail(c.Trace(), 12))
 			}
 		})
